@@ -607,7 +607,7 @@ private:
                                 ++stream_pos;
 
                                 *dst_it++ = this->_palette[ packed_indices >> 4 ];
-                                if( ++i == second )
+                                if( ++i == count ) // count may have been clamped to the end of the row
                                     break;
 
                                 *dst_it++ = this->_palette[ packed_indices & 0x0f ];
